@@ -91,6 +91,7 @@ impl Gate {
 struct PutRec {
     seq: u64,     // what put returned (the WAL sequence)
     queued: bool, // instant_index && enable_embedding
+    task: Option<u64>, // the id the put pushed on the enrichment queue, as observed on the handle
     token: String,
     hash: String, // blake3 of the payload
 }
@@ -342,11 +343,22 @@ fn run_schedule(interval: usize, acts: &[Act], drv: Option<&mut Driver>, verbose
                 let idx = real.puts.len();
                 let payload = if *big { big_payload(idx) } else { format!("{} document number {} about enrichment", token(idx), idx).into_bytes() };
                 let opts = put_options(*instant, *embed);
+                let queue_len_before = verif_state(&real.mem()).enrichment_queue.len();
                 let r = { let mut m = real.mem(); m.put_bytes_with_options(&payload, opts) };
                 match r {
                     Ok(seq) => {
-                        real.puts.push(PutRec { seq, queued: *instant && *embed, token: token(idx), hash: b3(&payload) });
-                        put_auto = verif_state(&real.mem()).pending_frame_inserts == 0;
+                        let st_after = verif_state(&real.mem());
+                        let queued = *instant && *embed;
+                        // the task id is whatever the put appended to the queue (observed, not assumed)
+                        let task = if queued && st_after.enrichment_queue.len() == queue_len_before + 1 { st_after.enrichment_queue.last().copied() } else { None };
+                        if queued && task.is_none() && out.oracle.is_none() {
+                            out.oracle = Some(("queued-put-not-on-queue".into(), format!("step {i}: put {idx} needs enrichment but the queue did not grow by one")));
+                        }
+                        if !queued && st_after.enrichment_queue.len() != queue_len_before && out.oracle.is_none() {
+                            out.oracle = Some(("non-queued-put-on-queue".into(), format!("step {i}: put {idx} does not need enrichment but the queue changed")));
+                        }
+                        real.puts.push(PutRec { seq, queued, task, token: token(idx), hash: b3(&payload) });
+                        put_auto = st_after.pending_frame_inserts == 0;
                         if put_auto { out.branches.push("put-auto-commit"); }
                         out.branches.push(if *instant && *embed { "put-queued" } else { "put-not-queued" });
                         format!("ok {seq}")
@@ -480,33 +492,34 @@ fn run_schedule(interval: usize, acts: &[Act], drv: Option<&mut Driver>, verbose
         }
         if out.oracle.is_none() {
             for p in &real.procs {
-                if !real.puts.iter().any(|x| x.queued && x.seq == p.task) {
+                if !real.puts.iter().any(|x| x.task == Some(p.task)) {
                     out.oracle = Some(("unknown-task-processed".into(), format!("task {} does not belong to any queued put", p.task))); break;
                 }
             }
         }
         if out.oracle.is_none() {
             for (k, p) in real.puts.iter().enumerate() {
-                if !p.queued || queue.contains(&p.seq) { continue; }
+                let Some(tid) = p.task else { continue };
+                if queue.contains(&tid) { continue; }
                 let enriched = frames[k].enrichment_state == EnrichmentState::Enriched;
-                let pr = real.procs.iter().find(|x| x.task == p.seq);
+                let pr = real.procs.iter().find(|x| x.task == tid);
                 match pr {
-                    None => { out.oracle = Some(("task-left-queue-unprocessed".into(), format!("put {k} (task {}) left the queue without process_task", p.seq))); break; }
+                    None => { out.oracle = Some(("task-left-queue-unprocessed".into(), format!("put {k} (task {tid}) left the queue without process_task"))); break; }
                     Some(pr) => {
                         let hit_own = pr.error.is_none() && pr.task == k as u64;
                         if !hit_own {
                             // which mechanism kept the task from reaching its own frame?
                             let (sig, why) = if k >= pr.committed_then {
-                                (SIG_EARLY, format!("put {k} (frame {k}, task id {}) was processed while the frame was still an uncommitted WAL record ({} frames committed): `{}`; the task was removed from the queue; frame {k} ends {}",
+                                (SIG_EARLY, format!("put {k} (frame {k}, task id {tid}, WAL sequence {}) was processed while the frame was still an uncommitted WAL record ({} frames committed): `{}`; the task was removed from the queue; frame {k} ends {}",
                                     p.seq, pr.committed_then, pr.error.clone().unwrap_or_else(|| "ok".into()), if enriched { "Enriched (by another put's task)" } else { "Searchable" }))
                             } else {
-                                (SIG_SEQ, format!("put {k} is frame {k} but its task carries WAL sequence {}; process_task({}) {} ; frame {k} ends {}",
-                                    p.seq, p.seq, match &pr.error { Some(e) => format!("failed: `{e}`"), None => format!("enriched frame {} instead", p.seq) },
+                                (SIG_SEQ, format!("put {k} is frame {k} but its task carries id {tid} (its WAL sequence is {}); process_task({tid}) {} ; frame {k} ends {}",
+                                    p.seq, match &pr.error { Some(e) => format!("failed: `{e}`"), None => format!("enriched frame {tid} instead") },
                                     if enriched { "Enriched (by another put's task)" } else { "Searchable" }))
                             };
                             out.known.push((sig.to_string(), why));
                         } else if !enriched {
-                            out.oracle = Some(("processed-frame-not-enriched".into(), format!("task {} hit its own frame {k} without error but the frame is Searchable", p.seq))); break;
+                            out.oracle = Some(("processed-frame-not-enriched".into(), format!("task {tid} hit its own frame {k} without error but the frame is Searchable"))); break;
                         }
                     }
                 }
@@ -618,7 +631,9 @@ fn free_run(rng: &mut Rng) -> Result<(u64, u64), (String, String)> {
             let idx = puts.len();
             let seq = m.put_bytes_with_options(format!("{} document number {} about enrichment", token(idx), idx).as_bytes(), put_options(instant, embed))
                 .map_err(|e| ("free-run-put-failed".to_string(), e.to_string()))?;
-            puts.push(PutRec { seq, queued: instant && embed, token: token(idx), hash: String::new() });
+            // under the lock the worker cannot have touched the queue since the push: the last id is this put's
+            let task = if instant && embed { verif_state(&m).enrichment_queue.last().copied() } else { None };
+            puts.push(PutRec { seq, queued: instant && embed, task, token: token(idx), hash: String::new() });
         } else if r < 80 {
             m.commit().map_err(|e| ("free-run-commit-failed".to_string(), e.to_string()))?;
         } else if !puts.is_empty() {
@@ -652,7 +667,7 @@ fn free_run(rng: &mut Rng) -> Result<(u64, u64), (String, String)> {
     }
     let nq = puts.iter().filter(|p| p.queued).count() as u64;
     if stats.frames_processed > nq { return Err(("task-processed-twice".into(), format!("{} tasks processed, {} queued", stats.frames_processed, nq))); }
-    for id in verif_state(&m).enrichment_queue { if !puts.iter().any(|p| p.queued && p.seq == id) { return Err(("unknown-task-in-queue".into(), format!("{id}"))); } }
+    for id in verif_state(&m).enrichment_queue { if !puts.iter().any(|p| p.task == Some(id)) { return Err(("unknown-task-in-queue".into(), format!("{id}"))); } }
     Ok((stats.frames_processed, stats.errors))
 }
 
